@@ -6,7 +6,7 @@
 From Coq Require Import List NArith Bool.
 Import ListNotations.
 From Mos Require Import model.Utf model.Nom Gen.ParserTables model.Parser model.Display spec.Lossless spec.LayoutEquiv
-  proofs.NomProofs proofs.TriviaProofs proofs.C08Proofs proofs.C08Sweep.
+  proofs.NomProofs proofs.TriviaProofs proofs.C08Proofs proofs.C08Sweep proofs.ParserBlind.
 Open Scope N_scope.
 
 (* A single-line trivia slot: whatever the trivia parser consumes in front of x (tr or tr'), the wrapped parser sees x;
@@ -60,14 +60,34 @@ Theorem C08_nested_comment : forall b rest st o, cbody b ->
 Proof. exact c_comment_nested. Qed.
 Print Assumptions C08_nested_comment.
 
-(* Statement level, PARTIAL: proved by exhaustive evaluation over a finite domain (bound = the lists below), not for
+(* Statement level, leading trivia -- for EVERY statement form (all 20 alternatives, blocks included, any nesting) and
+   ARBITRARY legal trivia: if tr and tr' are both legal multi-line trivia in front of the same text x (`leading`: the
+   multi-line trivia parser consumes exactly them, in every state, at every position), then `statement` -- and one step
+   `statement | error` of the top-level loop -- run on tr ++ x and on tr' ++ x, at any two offsets, from any two states
+   that agree on ignore flag / scope counter / nesting depth / diagnostic KINDS, end in states that agree in the same
+   way (in particular: the same diagnostics kinds), return tokens of EQUAL SKELETON (or both fail / both abort alike)
+   and leave the same remaining text.  Rests on the blindness family of proofs/ParserBlind.v: no grammar function looks
+   at the absolute position or at the diagnostics recorded so far (`statement_blind`). *)
+Theorem C08_layout_leading : forall tr tr' x st st' o o', leading tr x -> leading tr' x -> SR st st' ->
+  RR Rtok (statement st (mkIn o (tr ++ x))) (statement st' (mkIn o' (tr' ++ x))) /\
+  RR Rtok (alt statement error st (mkIn o (tr ++ x))) (alt statement error st' (mkIn o' (tr' ++ x))).
+Proof. exact layout_leading_both. Qed.
+Print Assumptions C08_layout_leading.
+
+(* the same statement text at a different place in the file (other offset, other diagnostics so far) parses alike *)
+Theorem C08_position_blind : blind2 Rtok statement.
+Proof. exact statement_blind. Qed.
+Print Assumptions C08_position_blind.
+
+(* Statement level, inner slots, PARTIAL: proved by exhaustive evaluation over a finite domain (bound = the lists below), not for
    arbitrary trivia.  For every template -- one per statement form of the grammar plus three instruction shapes for
    every mnemonic of the translated tables -- replacing ONE slot by each sample trivia (7 single-line: blanks, tabs,
    empty / nested / code-containing block comments, a block comment with a line end; for multi-line slots also LF, CRLF,
    empty and non-empty line comments), re-casing ONE keyword (upper, alternating), and applying one sample to ALL slots
    at once gives a parse without diagnostics and the SAME skeleton as the canonical single-space layout.
-   Missing for the full C08_layout: arbitrary legal trivia at every slot simultaneously (a parse/print round trip for the
-   whole grammar); covered by the correspondence check and the metamorphic oracle on generated layouts. *)
+   Missing for the full C08_layout: arbitrary legal trivia at the INNER slots (terminals insensitive to blank vs
+   comment-opener lookahead under the separator condition) and the letter case of keywords at statement level beyond the
+   sweep; covered by the correspondence check and the metamorphic oracle on generated layouts. *)
 Theorem C08_layout_bounded_partial : forall tpl, In tpl templates ->
   exists k, skel_parse (canon tpl) = Some k /\ forall v, In v (variants tpl) -> skel_parse v = Some k.
 Proof. exact layout_bounded. Qed.
@@ -86,3 +106,9 @@ Proof.
     apply (cb_nest [99] [32]); repeat (apply cb_char; [discriminate|discriminate|]); apply cb_nil.
   - apply cb_char; [discriminate|discriminate|]. apply cb_nil.
 Qed.
+(* legal leading trivia exist: blank + LF + line comment + LF + tab; a nested block comment + CRLF; nothing -- in front of `lda #1` *)
+Example C08_leading_examples :
+  leading [32; 10; 47; 47; 32; 99; 10; 9] [108; 100; 97; 32; 35; 49] /\
+  leading [47; 42; 32; 97; 32; 47; 42; 32; 98; 32; 42; 47; 32; 42; 47; 13; 10] [108; 100; 97; 32; 35; 49] /\
+  leading [] [108; 100; 97; 32; 35; 49].
+Proof. repeat split; intros st o; vm_compute; eexists; eexists; split; reflexivity. Qed.
